@@ -30,10 +30,12 @@ META = dict(
                "Engine, two real threads, cooperative scheduler, all interleavings of one or two requests "
                "(edit, inject, control command, cancel, force) with a tick.",
     level_note="Partial: thread switches only at the instrumented yield points (call boundaries of the sub-calls of "
-               "Engine.tick and of the request entry points; CPython may switch elsewhere); the theorem is for one "
+               "Engine.tick and of the request entry points, hardware read/write, every UOD exec function, every "
+               "interpreter sub-tick, the sub-steps of a merge; CPython may switch elsewhere); the theorem is for one "
                "tick and one request and assumes the request body commutes with the tick's unlocked prologue "
-               "(hardware tick, reading the process image) — two requests and that assumption are validated by the "
-               "trace validation only; tag time stamps are not part of the compared observation.",
+               "(hardware tick, reading the process image and its error path set_error_state, which the translator "
+               "reports as touching attributes the requests touch: not discharged from the source) — two requests and "
+               "that assumption are validated by the trace validation only, including ticks whose hardware read fails; tag time stamps are not part of the compared observation.",
     technique="Lean 4 proof (invariant over reachable states of a lock machine) + AST lock table + trace validation "
               "under a deterministic cooperative scheduler",
 )
@@ -168,11 +170,12 @@ def arrangements(n: int) -> list[str]:
     return ["b" * (n - k) + "a" * k for k in range(n + 1)]
 
 
-def real_positions(trace: list[tuple[str, str]], n_reqs: int) -> list[str]:
+def real_positions(trace: list[tuple[str, str]], n_reqs: int, read_fails: bool = False) -> list[str]:
     """Where each request's effect ran relative to the tick's critical section, read off the *real* trace: the effect
     of a request = its segments from the lock acquisition on if it takes the lock, else from its entry on."""
     t_idx = [i for i, (w, _) in enumerate(trace) if w == "T"]
     t_acq = next((i for i, (w, lab) in enumerate(trace) if w == "T" and lab == "acq"), None)
+    t_read = next((i for i, (w, lab) in enumerate(trace) if w == "T" and lab == "hwl.read_batch"), None)
     groups: list[list[tuple[int, str]]] = []
     for i, (w, lab) in enumerate(trace):
         if w != "R":
@@ -188,7 +191,8 @@ def real_positions(trace: list[tuple[str, str]], n_reqs: int) -> list[str]:
         if t_acq is None or not t_idx:
             out.append("b" if not eff else "t")
         elif all(i < t_acq for i in eff):
-            out.append("b")
+            # after a failed hardware read the engine is in its error state before the tick has taken the lock
+            out.append("p" if read_fails and t_read is not None and any(i > t_read for i in eff) else "b")
         elif all(i > t_idx[-1] for i in eff):
             out.append("a")
         else:
@@ -219,10 +223,10 @@ class Combo:
     def execute(self, choices: str) -> dict:
         r = run_scenario(self.case(choices))
         trace = r["trace"]
-        pos = real_positions(trace, len(self.base["reqs"]))
+        pos = real_positions(trace, len(self.base["reqs"]), bool(self.base.get("fail")))
         obs = r["obs"]
         k = next((i for i, s in enumerate(self.serial) if s == obs), None)
-        cls = "-" if "t" in pos else ("none" if k is None else str(self.cls_ids[k]))
+        cls = "-" if ("t" in pos or "p" in pos) else ("none" if k is None else str(self.cls_ids[k]))
         # the op line for the model: the labels each thread showed (without <start>/acq), the choices, the class ids
         t_labels = [lab for (w, lab) in trace if w == "T" and lab not in ("<start>", "acq")]
         rq: list[str] = []
@@ -234,7 +238,8 @@ class Combo:
             elif rq:
                 rq[-1] += ("" if rq[-1].endswith("=") else "|") + lab
         rq = [x + "-" if x.endswith("=") else x for x in rq]
-        line = "\t".join([",".join(t_labels) or "-", ";".join(rq) or "-", r["made"], ",".join(map(str, self.cls_ids))])
+        line = "\t".join([",".join(t_labels) or "-", ";".join(rq) or "-", r["made"], ",".join(map(str, self.cls_ids)),
+                          "1" if self.base.get("fail") else "0"])
         out = f"trace={','.join(w + ':' + lab for (w, lab) in trace)} pos={','.join(pos)} cls={cls}"
         return {"case": self.case(r["made"]), "line": line, "out": out, "obs": obs, "pos": pos,
                 "serial_match": k, "trace": trace, "enabled": r["enabled"], "made": r["made"]}
@@ -279,6 +284,13 @@ def run(ctx: Check) -> int:
         if lock_table.OUT.read_text() == expected:
             break
         ctx.notes.append(f"lock table was rewritten by a concurrent run during the build (attempt {attempt + 1})")
+    ctx.extra["commutation_hypothesis"] = {
+        "discharged_from_source": not table["prologue_shared"],
+        "attributes_shared_by_unlocked_tick_prologue_and_requests": table["prologue_shared"],
+        "note": "the part of Engine.tick outside the lock (hardware tick, read_process_image and its error path "
+                "set_error_state) touches these attributes that request bodies touch too; the theorem assumes they "
+                "commute; schedules in which the hardware read of the concurrent tick fails are part of the trace "
+                "validation"}
     ctx.extra["lock_table"] = {"locks": table["locks"], "tick": table["tick"], "nested": table["nested"],
                                "entries": [[n, lk, t] for (n, lk, t) in table["entries"]]}
     rng = ctx.rng
@@ -322,6 +334,16 @@ def run(ctx: Check) -> int:
                 for p in range(0, n_t):
                     add(combo, "T" * p + "r")
                     n_atomic += 1
+    # (a') the same with a tick whose hardware read fails (set_error_state runs in the tick's unlocked prologue)
+    n_fail = 0
+    fail_combos = [(p, 3, r) for p in PROGRAMS for r in REQUESTS] if thorough else \
+        [(p, 3, r) for p in ("cmds", "pause", "block") for r in ("edit", "pause", "inject-cmd", "cancel")]
+    for (prog, warm, rq) in fail_combos:
+        combo = combo_for(prog, warm, [rq], fail=True)
+        n_t = add(combo, "tr")["made"].count("T")
+        for p in range(0, n_t):
+            add(combo, "T" * p + "r")
+            n_fail += 1
     # (b) all interleavings (also at the request's own yield points) for selected combos; one and two requests
     full = [("cmds", 5, ["edit"]), ("cmds", 1, ["edit"]), ("cmds", 5, ["cmdb"]), ("pause", 5, ["pause"]),
             ("stop", 3, ["hold"]), ("block", 4, ["cancel"]), ("watch", 4, ["force"]), ("cmds", 3, ["inject-cmd"]),
@@ -365,6 +387,7 @@ def run(ctx: Check) -> int:
         combo = combo_for(prog, rng.randrange(0, 7), reqs)
         add(combo, "".join(rng.choice("TTR") for _ in range(rng.randrange(4, 22))))
     ctx.extra["schedules"] = {"request_as_a_whole_at_every_tick_yield_point": n_atomic,
+                              "of_which_hardware_read_of_the_tick_fails": n_fail,
                               "all_interleavings_selected_combos": n_full,
                               "all_interleavings_combos_skipped_for_time": skipped, "distinct_cases": len(cases),
                               "combos": len(combos)}
@@ -372,7 +395,8 @@ def run(ctx: Check) -> int:
                 "timed Pause, Watch+Wait, Block, Restart, long-running UOD command) x warm-up 5 (thorough 0-6) x 9 requests (live edit, inject "
                 "mark / command, Pause, Hold, Stop, user UOD command, cancel, force) with the request as a whole placed "
                 "at each yield point of the tick (between its sub-calls, and inside them: before the hardware read, "
-                "before every UOD exec function of the command phase, before the hardware write); for selected combos with one and with two requests (thorough: every method x every "
+                "before every UOD exec function of the command phase, before the hardware write, after every sub-tick of "
+                "the interpreter), also with a tick whose hardware read fails; for selected combos with one and with two requests (thorough: every method x every "
                 "request at warm-up 1/3/5, three methods also at 2/4/6, 16 two-request combos) all interleavings "
                 "at the yield points of both threads (stateless search over the choices the real run has enabled); "
                 "random schedules. Non-trivial = the request thread ran while the ticking thread was between its first "
